@@ -212,9 +212,7 @@ func genWFVersion(r *core.Rand) (string, string, string, bool) {
 		case 2:
 			// zero padding of any length: the epoch is a number, "0000000000000000000007" is 7
 			epoch = strings.Repeat("0", r.Pick2(r.Range(1, 3), r.Range(15, 45))) + r.Pick([]string{strconv.Itoa(r.Intn(10)), "9223372036854775807", strconv.FormatUint(r.U64()>>uint(1+r.Intn(62)), 10)})
-			if r.Chance(1, 6) {
-				epoch = "+" + epoch
-			}
+
 		case 3:
 			epoch = "9223372036854775807"
 		case 4:
@@ -251,6 +249,9 @@ func streamVerparse(g *core.G) {
 		s := renderWF(e, u, rv, hr)
 		switch r.Intn(10) {
 		case 0, 1, 2, 3: // well-formed, padded
+			if e != "" && r.Chance(1, 8) {
+				s = "+" + s // a '+'-signed epoch is a number too
+			}
 			emit(genPad(r) + s + genPad(r))
 		case 4: // bad epoch
 			bad := r.Pick([]string{"a", "-1", "1a", "", "9223372036854775808", "99999999999999999999", "1.0", "~", "+", "-", "1 "})
